@@ -278,7 +278,7 @@ class C12:
                 self._probes_for(doc, faults, sub, blank, probes, bump)
                 masked = self._check_damaged(kp, createImporter, doc, headers, faults, line_of, blank, ref_doc, bad_doc, bad_err, add_v, probes, bump, log)
                 if masked is not None:
-                    self._check_exports(kp, doc, headers, faults, ref_kern, ref_ekern, bad_doc, masked, add_v, probes, bump, log)
+                    self._check_exports(kp, doc, headers, faults, ref_kern, ref_ekern, ref_doc, bad_doc, masked, add_v, probes, bump, log)
 
         # ---- cross-import: the clean text again, in the same process, after the damaged import
         try:
@@ -442,12 +442,16 @@ class C12:
         add_v('cell-altered', 'cell-altered/' + f['kind'], verbatim or {'error for': text}, tb, row=ri, col=ci, header=hdr, family=f['family'], cell=text)
         masked.add((ri, ci))
 
-    def _check_exports(self, kp, doc, headers, faults, ref_kern, ref_ekern, bad_doc, masked, add_v, probes, bump, log):
+    def _check_exports(self, kp, doc, headers, faults, ref_kern, ref_ekern, ref_doc, bad_doc, masked, add_v, probes, bump, log):
         """Oracle (d): exports equal the reference export with exactly the corrupted cells replaced by the injected text."""
         fmap = {(f['row'], f['col']): f for f in faults}
 
-        def nullish(c):
-            return c.text in ('.', '*') or (c.kind == 'bar' and (c.meta or {}).get('hidden'))
+        def tok_nullish(tok):
+            return bool(getattr(tok, 'hidden', False)) or tok.encoding in ('.', '*', '')
+
+        def nullish_ref(ri, ci):
+            # does this cell of the UNDAMAGED import export as a placeholder? (hidden tokens and null tokens do)
+            return tok_nullish(ref_doc.tree.stages[ri + 1][ci].token)
 
         plan_rows = []    # (row index, exported column indices, kept_in_reference)
         for ri, r in enumerate(doc.rows):
@@ -455,7 +459,7 @@ class C12:
                 plan_rows.append((ri, None, False))     # global comments are not part of the export (C03)
                 continue
             cols = [ci for ci, c in enumerate(r.cells) if headers[c.spine] in docgen.EXPORTED_HEADERS]
-            kept = bool(cols) and not all(nullish(r.cells[ci]) for ci in cols)
+            kept = bool(cols) and not all(nullish_ref(ri, ci) for ci in cols)
             plan_rows.append((ri, cols, kept))
         for enc_name, ref_text, kwargs in (('kern', ref_kern, {}), ('ekern', ref_ekern, {'encoding': kp.Encoding.eKern})):
             if not isinstance(ref_text, str) or ref_text.startswith('raised '):
@@ -488,7 +492,7 @@ class C12:
                         expected = None
                         break
                 else:
-                    cells = ['.' if doc.rows[ri].cells[ci].kind == 'bar' else doc.rows[ri].cells[ci].text for ci in cols]
+                    cells = ['*' if doc.rows[ri].kind == 'interp' else '.' for ci in cols]   # placeholders of a dropped row
                 if not fpos:
                     if kept:
                         expected.append((ri, cells, fpos))
@@ -499,12 +503,11 @@ class C12:
                 for pos, ci in enumerate(cols):
                     if pos in fpos:
                         if (ri, ci) in masked:
-                            tok = bad_doc.tree.stages[ri + 1][ci].token
-                            if not (getattr(tok, 'hidden', False) or tok.encoding in ('.', '*')):
+                            if not tok_nullish(bad_doc.tree.stages[ri + 1][ci].token):
                                 kept_now = True
                         else:
                             kept_now = True
-                    elif not nullish(doc.rows[ri].cells[ci]):
+                    elif not nullish_ref(ri, ci):
                         kept_now = True
                 if not kept_now:
                     continue
